@@ -8,6 +8,8 @@
     C <n> | <state>
     create <Type> <nameHex> <ioe> <tmplEnc> <attrsEnc> | now= parts= cfg= ok= parents= file= attrs= <state>
     delete <Type> <nameHex> <cascade> | found= ok= <state>
+    (a delete line may end in ` thr=<Type>:<nameHex>`: the deactivation of that object is answered by an exception from an
+     OnActiveChanged subscriber; the observation then starts with threw=<0|1>; a fault that fired is replayed in the model as `thr`)
     X <signal> <operation line>          the worker process died executing that operation
     (create lines may end in ` httpn`: request body without an "attrs" member; create/delete lines may end in ` http`: the call went through PUT/DELETE /v1/objects/… and HttpHandler::ProcessRequest)
     <state> = objs=<T:nameHex:api:active:hash:reg,…> items=<T:nameHex,…> files=<hex,…> glob=<hash>
@@ -242,6 +244,7 @@ structure DSt where
   ignored : Nat := 0
   deletes : Nat := 0
   deletedOk : Nat := 0
+  delThrew : Nat := 0
   delRefusedNonApi : Nat := 0
   delRefusedDeps : Nat := 0
   cascades : Nat := 0
@@ -427,27 +430,40 @@ def handle (d : DSt) (n : Nat) (line : String) : IO DSt := do
         let created := if o.res == some .ok && present && !existed then k :: d.created else d.created
         return { d with before := o.after, deps := deps, fileOf := fileOf, created := created, st := stOfWorld o.after fileOf deps }
     | _, _ => IO.println s!"BADLINE line={n}"; return d
-  | "delete" :: ty :: nameH :: casc :: via =>
+  | "delete" :: ty :: nameH :: casc :: via0 =>
+    -- optional last token `thr=<Type>:<nameHex>`: the deactivation of that object is answered by an exception
+    let thrTok : Option String := match via0.getLast? with
+      | some t => if t.startsWith "thr=" then some (t.drop 4).toString else none
+      | none => none
+    let via := if thrTok.isSome then via0.dropLast else via0
     if via != [] && via != ["http"] then IO.println s!"BADLINE line={n}"; return d else
     let d := if via == ["http"] then { d with httpOps := d.httpOps + 1 } else d
-    let parsed : Option (Key × Bool × Bool × Option Res × World) := do
+    let parsed : Option (Key × Bool × Bool × Option Res × World × Option Key) := do
       let name ← unhex nameH
       let c ← parseBool? casc
       let found ← (getKV kv "found") >>= parseBool?
       let res ← (getKV kv "ok") >>= parseRes
       let after ← parseWorld kv
-      pure (⟨S ty, name⟩, c, found, res, after)
+      let thr ← match thrTok with
+        | none => some none
+        | some t => do
+          let f ← parseKeyEnt t
+          let fired ← (getKV kv "threw") >>= parseBool?
+          pure (if fired then some f else none)
+      pure (⟨S ty, name⟩, c, found, res, after, thr)
     match parsed with
-    | some (k, c, found, res, after) =>
+    | some (k, c, found, res, after, thr) =>
       let mut d := { d with steps := d.steps + 1, deletes := d.deletes + 1 }
+      if thr.isSome then d := { d with delThrew := d.delThrew + 1 }
       if found then
-        let (mst, mres) := deleteObject d.st k c
+        let (mst, mres) := deleteObject d.st k c thr
         if !d.tainted && some mres != res then
           d ← mismatch d n "delete-result" s!"impl={repr res} model={repr mres}"
         if !d.tainted && viewSt mst != viewWorld after then
           d ← mismatch d n "delete-state" s!"impl={viewWorld after} model={viewSt mst}"
-      match specDelete d.before k c found res d.created d.fileOf d.deps after with
-      | some cl => d ← specfail d n cl
+      match specDelete d.before k c found res d.created d.fileOf d.deps after thr with
+      -- F-C17j: tagged when the fault hit a dependent in a cascade (grouping only, nothing is suppressed here)
+      | some cl => d ← specfail d n (cl ++ (if c && thr.isSome && thr != some k then "+thrdep" else ""))
       | none => pure ()
       if found then
         let api := ((d.before.find k).map (·.api)).getD false
@@ -459,7 +475,9 @@ def handle (d : DSt) (n : Nat) (line : String) : IO DSt := do
         else if kids && !c then d := { d with delRefusedDeps := d.delRefusedDeps + 1 }
         if !d.caseInteresting && (kids || !api) then
           d := { d with caseInteresting := true, nontrivial := d.nontrivial + 1 }
-      let deps := d.deps.filter (fun e => after.has e.1 && after.has e.2)
+      -- an object whose deletion was aborted after its deactivation no longer refers to anything (its `Stop()` has
+      -- untracked its references): it is nobody's dependent any more
+      let deps := d.deps.filter (fun e => after.has e.1 && after.has e.2 && ((after.find e.1).map (·.active)).getD false)
       let fileOf := d.fileOf.filter (fun e => after.has e.1)
       let created := d.created.filter (fun e => after.has e)
       return { d with before := after, deps := deps, fileOf := fileOf, created := created, st := stOfWorld after fileOf deps }
@@ -469,4 +487,4 @@ def handle (d : DSt) (n : Nat) (line : String) : IO DSt := do
 def main : IO Unit := do
   let stdin ← IO.getStdin
   let d ← foldLines stdin handle ({} : DSt)
-  IO.println s!"STATS cases={d.caseNo} steps={d.steps} creates={d.creates} created={d.createdOk} cfg_rejected={d.cfgRejected} create_failed={d.failed} dup_refused={d.dupRefused} ignored={d.ignored} deletes={d.deletes} deleted={d.deletedOk} refused_non_api={d.delRefusedNonApi} refused_deps={d.delRefusedDeps} cascades={d.cascades} http_ops={d.httpOps} crashes={d.crashes} apply_generated={d.applyCreates} text_identical={d.textIdentical} text_parsed={d.parsedOk} text_unparsed={d.parsedBad} nontrivial={d.nontrivial} mismatches={d.mismatches} specfails={d.specfails}"
+  IO.println s!"STATS cases={d.caseNo} steps={d.steps} creates={d.creates} created={d.createdOk} cfg_rejected={d.cfgRejected} create_failed={d.failed} dup_refused={d.dupRefused} ignored={d.ignored} deletes={d.deletes} deleted={d.deletedOk} del_threw={d.delThrew} refused_non_api={d.delRefusedNonApi} refused_deps={d.delRefusedDeps} cascades={d.cascades} http_ops={d.httpOps} crashes={d.crashes} apply_generated={d.applyCreates} text_identical={d.textIdentical} text_parsed={d.parsedOk} text_unparsed={d.parsedBad} nontrivial={d.nontrivial} mismatches={d.mismatches} specfails={d.specfails}"
